@@ -128,6 +128,12 @@ func (propC18) Gen(r *Rng, run uint64, tier string) *Plan {
 	if tier == "thorough" && r.Bool(0.2) {
 		spec.NMax = 8
 	}
+	switch x := r.Intn(100); {
+	case x < 5:
+		spec.NMin, spec.NMax, spec.RecMax = 8, 20, 5
+	case x < 10:
+		spec.RecMax = 80
+	}
 	if r.Bool(0.25) {
 		spec.Msg = "token"
 	}
